@@ -230,3 +230,29 @@ def _logger(eng, fr, st, name, args, rtypes, ins):
     v = st.fresh(rtypes[0], "logger")
     st.assume(z3.Not(to_bool(v.nil)))
     return [(st, v)]
+
+
+def _bk_key(st, p):
+    cell = p.cell
+    if isinstance(cell, tuple) and len(cell) == 2 and cell[0] == "s":
+        cell = cell[1]
+    return ("backoff", (cell, tuple(p.path)))
+
+
+@model("(*github.com/jpillora/backoff.Backoff).Duration")
+def _backoff_duration(eng, fr, st, name, args, rtypes, ins):
+    k = _bk_key(st, args[0])
+    cur = st.ghost.get(k, z3.IntVal(0) if isinstance(args[0].cell, int) else z3.Const(fresh_name("attempt0"), z3.IntSort()))
+    st.ghost[k] = cur + 1
+    d = z3.Const(fresh_name("backoffdur"), z3.IntSort())
+    return [(st, d)]
+
+
+@model("(*github.com/jpillora/backoff.Backoff).Attempt")
+def _backoff_attempt(eng, fr, st, name, args, rtypes, ins):
+    k = _bk_key(st, args[0])
+    if k not in st.ghost:
+        st.ghost[k] = z3.IntVal(0) if isinstance(args[0].cell, int) else z3.Const(fresh_name("attempt0"), z3.IntSort())
+        if not isinstance(args[0].cell, int):
+            st.assume(st.ghost[k] >= 0)
+    return [(st, z3.ToReal(st.ghost[k]))]
